@@ -175,8 +175,11 @@ def run(ctx):
             d5 = any(sig_runner_blocked_on_slot(f) for f in rep.failures[n0:])
     rep.extra["corpus_d5_runner_blocked_on_slot"] = "reproduces (known finding)" if d5 else "does not reproduce on this tree"
     r = ctx.sub_rng("gen")
-    scs = [R.gen_scenario(r, PROF if i % 3 else PROF_BACKLOG) for i in range(ctx.n(450, 15000))]
+    scs = [R.gen_scenario(r, PROF if i % 3 else PROF_BACKLOG) for i in range(ctx.n(450, 30000))]
     broken = explore(ctx, rep, scs, "main")
+    if not ctx.quick:
+        broken = explore(ctx, rep, R.grid_scenarios(), "grid") or broken
+        rep.extra["small_scope_grid"] = "A<=3 x P<=2 x N in {None,1,2,3} x 13 stop instants x 4 five-message patterns"
     unexplained = [f for f in rep.failures if not sig_runner_blocked_on_slot(f)]
     if (any(not o["ok"] for o in rep.obligations)) and not unexplained:
         r2 = ctx.sub_rng("search")
